@@ -410,7 +410,7 @@ func checkC10(p *core.Program, r *core.Report) {
 	r.Floor("encoder slots", 8)
 	r.Floor("decoder slots", 8)
 	r.Floor("coordinate placements", 1)
-	r.Floor("decoder error sites", 3)
+	r.Floor("decoder error sites", 2)
 	r.Floor("CLI proof codec sites", 2)
 }
 
